@@ -13,8 +13,6 @@ import (
 	"verifsim/kit"
 
 	_ "verifsim/worlds/stateworld"
-	_ "verifsim/worlds/votedbworld"
-	_ "verifsim/worlds/networld"
 )
 
 var userArgs []string
